@@ -19,6 +19,7 @@ class Shims:
         self.interrupt_plan = {}   # (thread_name, nth_wait) -> exception to raise inside Event.wait
         self.wait_counts = {}
         self.executors = []
+        self.yield_on_release = True
         self.exec_observers = []   # observers(executor name, 'submit'|'pick'|'finish', fn)
 
         class Lock:
@@ -44,6 +45,8 @@ class Shims:
                 if self.owner is None:
                     raise RuntimeError('release unlocked lock')
                 self.owner = None
+                if shims.yield_on_release:
+                    s.point(('lock-release', self.name))
 
             def locked(self):
                 return self.owner is not None
